@@ -462,7 +462,10 @@ func (v *Value) toGoValueInterval(rootValues []*Value, checkCircularReference bo
 		return array, nil
 	case ValueObj:
 		obj := make(map[string]interface{})
-		for k, objVal := range *v.Obj {
+		// in key order, so that it does not depend on the run which member's
+		// error is reported
+		for _, k := range sortedKeys(*v.Obj) {
+			objVal := (*v.Obj)[k]
 			val, err := objVal.Value.toGoValueInterval(append(rootValues, v), true)
 			if err != nil {
 				return nil, err
